@@ -168,14 +168,25 @@ fn run_tree(bytes: &[u8], ctx: &Ctx) -> CaseInfo {
     cfg.atoms = vec![Term::Int(0), Term::Int(1), Term::Bool(true), Term::Str("s".into())];
     cfg.w = [4, 6, 1, 3, 6];
     cfg.max_depth = 2;
+    cfg.kinds.push(Kind::Wrap);
+    cfg.kinds.push(Kind::Wrap);
     let n = 1 + s.below(5);
     let mut goals = vec![];
     for _ in 0..n {
         let a = if s.flag(120) { Term::Var(vars[s.below(vars.len())]) } else { gen_term(&mut s, &cfg, 0) };
         let b = if s.flag(110) { mutate(&mut s, &cfg, &a) } else { gen_term(&mut s, &cfg, 0) };
+        // an Option field switched between None and Some(..) is the interesting near miss
+        let b = match (&b, s.flag(60)) {
+            (Term::Cmp(Kind::Wrap, w), true) => {
+                let flipped = if w[1] == Term::Nil { Term::Cmp(Kind::Pair, vec![Term::Int(0), Term::Var(vars[0])]) } else { Term::Nil };
+                Term::Cmp(Kind::Wrap, vec![w[0].clone(), flipped])
+            }
+            _ => b,
+        };
+        let (a, b) = (a.sanitize_wrap(), b.sanitize_wrap());
         let g = if s.flag(90) { Goal::Diseq(a, b) } else { Goal::Eq(a, b) };
         if s.flag(40) {
-            let c = gen_term(&mut s, &cfg, 0);
+            let c = gen_term(&mut s, &cfg, 0).sanitize_wrap();
             goals.push(Goal::Conde(vec![vec![g], vec![Goal::Eq(Term::Var(vars[s.below(vars.len())]), c)]]));
         } else {
             goals.push(g);
